@@ -381,6 +381,7 @@ fn invitation_used_up(eng: &mut crate::engine::Engine, xs: &mut ExtraState, outs
 }
 
 fn c07_extra(eng: &mut crate::engine::Engine, xs: &mut ExtraState, outs: &[StepOut]) -> Result<(), Viol> {
+    invitation_survives_refusal(eng, xs, outs, "C07")?;
     invitation_used_up(eng, xs, outs, "C07")?;
     // after every MODE on a channel - accepted or refused - the admission rules are what the model
     // says they are: two outsiders try to join (and leave again if they got in)
@@ -420,7 +421,58 @@ fn c07_extra(eng: &mut crate::engine::Engine, xs: &mut ExtraState, outs: &[StepO
     Ok(())
 }
 
+// An invitation is used up by the JOIN it admits, not by a JOIN that is refused for another reason
+// first: right after an accepted INVITE to an invite-only channel that also has a key or is full,
+// the invited user knocks with the wrong key / at the full channel, the obstacle is lifted by an
+// operator of the channel, and the user comes again.
+fn invitation_survives_refusal(eng: &mut crate::engine::Engine, xs: &mut ExtraState, outs: &[StepOut], id: &'static str) -> Result<(), Viol> {
+    let Some(last) = outs.last() else { return Ok(()) };
+    if !last.sent.starts_with("INVITE ") || xs.counters.get("invitation_survives_probes").copied().unwrap_or(0) >= 2 {
+        return Ok(());
+    }
+    let now: BTreeSet<(String, String)> = eng.model.users.values().flat_map(|u| u.invited.iter().map(move |c| (u.nick.clone(), c.clone()))).collect();
+    let fresh: Vec<(String, String)> = now.difference(&xs.invited).cloned().collect();
+    for (nick, ch) in fresh {
+        let Some(co) = eng.model.chans.get(&ch).cloned() else { continue };
+        if !co.has('i') || co.members.contains_key(&nick) {
+            continue;
+        }
+        let full = co.limit.map_or(false, |l| co.members.len() >= l);
+        if co.key.is_none() && !full {
+            continue;
+        }
+        let Some(op) = co.members.iter().find(|(_, r)| r.half_plus()).map(|(n, _)| n.clone()) else { continue };
+        let mut lines: Vec<(String, String)> = vec![];
+        match &co.key {
+            Some(_) => lines.push((nick.clone(), format!("JOIN {} not-the-key", ch))),
+            None => lines.push((nick.clone(), format!("JOIN {}", ch))),
+        }
+        if full {
+            lines.push((op.clone(), format!("MODE {} -l", ch)));
+        }
+        lines.push((nick.clone(), match &co.key {
+            Some(k) => format!("JOIN {} {}", ch, k),
+            None => format!("JOIN {}", ch),
+        }));
+        *xs.counters.entry("invitation_survives_probes".into()).or_insert(0) += 1;
+        for (n, line) in lines {
+            let Some(c) = eng.model.conn_of(&n) else { break };
+            let mut o = eng.line(c, &line);
+            o.ctx = "JOIN".into();
+            let owns_all = |d: &Disc, _o: &StepOut| not_panic(d);
+            let pol = Policy { id, owns: &owns_all };
+            if let Verdict::Violation(mut v) = judge(&pol, eng, &o) {
+                v.explanation = format!("after `{}` (channel {} is +i and {}): {}", last.sent, ch, if full { "full" } else { "keyed" }, v.explanation);
+                v.signature = format!("invitation-survives-refusal:{}", v.signature);
+                return Err(v);
+            }
+        }
+    }
+    Ok(())
+}
+
 fn c09_extra(eng: &mut crate::engine::Engine, xs: &mut ExtraState, outs: &[StepOut]) -> Result<(), Viol> {
+    invitation_survives_refusal(eng, xs, outs, "C09")?;
     invitation_used_up(eng, xs, outs, "C09")
 }
 
